@@ -2,8 +2,7 @@
 use std::borrow::Cow;
 use std::net::SocketAddr;
 
-use vcoll::vvec::VVec as Vec;
-use vcoll::{BTreeMap, BTreeSet};
+use std::collections::{BTreeMap, BTreeSet};
 
 use crate::env::*;
 use crate::node_types::{ClusterMember, NodeMembership};
